@@ -60,7 +60,7 @@ Section StepT.
   Qed.
 
   Theorem cinv_voteresp g C LL A V i j g' : cinv cfg Ps g C LL A V ->
-    cstep false [cfg] g (CBase (LElect (GVoteResp i j))) = Some g' -> exists C' LL' A', cinv cfg Ps g' C' LL' A' V.
+    cstep false [cfg] g (CBase (LElect (GVoteResp i j))) = Some g' -> exists Cn LLn An, cinv cfg Ps g' (Cn ++ C) (LLn ++ LL) (An ++ A) V.
   Proof.
     intros HI Hstep. apply cstep_base_inv in Hstep. destruct Hstep as (_ & l' & Hl & ->).
     pose proof (cv_l cfg Ps g C LL A V HI) as Hlinv. pose proof (cv_ci cfg Ps g C LL A V HI) as Hci. pose proof (ci_ok C LL Hci) as HC.
@@ -89,7 +89,7 @@ Section StepT.
     - (* a newer term: back to follower *)
       subst x. inversion Hg; subst g1. clear Hg.
       match goal with |- context [mkGN _ (Up ?S) None _] => set (sF := S) in * end.
-      exists C, LL, A. match goal with |- cinv _ _ ?G _ _ _ _ => set (g' := G) end.
+      exists [], [], []. cbn [app]. match goal with |- cinv _ _ ?G _ _ _ _ => set (g' := G) end.
       apply (cinv_cand_quiet g g' C LL A V i n s sF None HI Hf Hr); try reflexivity.
       + repeat split.
       + repeat split.
@@ -114,7 +114,7 @@ Section StepT.
           assert (c0 = i).
           { apply (leaders_fun [cfg] _ (v_term s) c0 i HQ Hg1); cbn [g_leaders]; [right; exact Hc0|left; reflexivity]. }
           subst c0. destruct (li_leaders [cfg] _ C Hlinv _ _ Hc0 n Hin Hid) as [_ Hs2]. specialize (Hs2 se Hse). lia. }
-        match goal with |- exists C' LL' A', cinv _ _ ?G _ _ _ _ => set (g' := G) end.
+        match goal with |- exists Cn LLn An, cinv _ _ ?G _ _ _ _ => set (g' := G) end.
         destruct (cinv_become cfg Ps HVn g g' C LL A V [] [] i n s sL (gn_next n) HI Hf Hr KL KvL XR XT) as (C' & LL' & A' & Hc');
           [ | | | reflexivity | exact Hg1 | reflexivity | reflexivity | reflexivity | reflexivity | | | | | | |exists C', LL', A'; exact Hc'].
         * apply N.le_refl.
@@ -137,7 +137,7 @@ Section StepT.
           left. exists kw, rq. rewrite <- Hid. exact H.
       + (* keeps counting *)
         subst x. inversion Hg; subst g1. clear Hg.
-        exists C, LL, A. match goal with |- context [mkGN _ (Up s) (Some ?X) _] => set (se' := X) in * end.
+        exists [], [], []. cbn [app]. match goal with |- context [mkGN _ (Up s) (Some ?X) _] => set (se' := X) in * end.
         match goal with |- cinv _ _ ?G _ _ _ _ => set (g' := G) end.
         apply (cinv_cand_quiet g g' C LL A V i n s s (Some se') HI Hf Hr); try reflexivity.
         * apply lkeep_refl.
